@@ -3,6 +3,7 @@ package main
 import (
 	"fmt"
 	"go/token"
+	"sort"
 	"strings"
 
 	"golang.org/x/tools/go/ssa"
@@ -132,6 +133,42 @@ func certCheckers(w *World, rup *ssa.Function) []*ssa.Function {
 	return out
 }
 
+// certEntry: an entry point that checks certificate lines. core holds the per-line loop; when core is an unexported
+// helper shared by several entry points (the reader-based and the channel-based one handing it a line source), every
+// function of package explain that calls it is an entry of its own, and site is its call of the core.
+type certEntry struct {
+	entry, core *ssa.Function
+	site        ssa.CallInstruction
+}
+
+func certEntries(w *World, rup *ssa.Function) []certEntry {
+	var out []certEntry
+	for _, core := range certCheckers(w, rup) {
+		var sites []ssa.CallInstruction
+		if obj := core.Object(); obj != nil && !obj.Exported() && core.Parent() == nil {
+			for _, ci := range w.Callers[core] {
+				if p := ci.Parent(); p != nil && p != core && w.PkgName(p) == "explain" && ci.Common().StaticCallee() == core {
+					sites = append(sites, ci)
+				}
+			}
+		}
+		if len(sites) == 0 {
+			out = append(out, certEntry{core, core, nil})
+			continue
+		}
+		sort.Slice(sites, func(i, j int) bool { return w.InstrPos(sites[i]) < w.InstrPos(sites[j]) })
+		for _, ci := range sites {
+			out = append(out, certEntry{ci.Parent(), core, ci})
+		}
+	}
+	return out
+}
+
+// entryName: the name an obligation about the entry point is keyed by.
+func (e certEntry) name(w *World) string {
+	return w.FuncName(e.entry)
+}
+
 // appendedElem: for `F = append(load F, x)` returns x (single element).
 func appendedElem(call *ssa.Call) ssa.Value {
 	if len(call.Call.Args) != 2 {
@@ -170,14 +207,15 @@ func ruleR8_1(w *World, r *Report) {
 		r.Unk("R8.1", "RUP test", "-", "package explain has no unique func(*Problem, []int) bool")
 		return
 	}
-	for _, fn := range certCheckers(w, rup) {
+	for _, ce := range certEntries(w, rup) {
+		fn := ce.core
 		n := 0
 		for _, gs := range growthSites(fn) {
 			if gs.Field != "explain.Problem.Clauses" || gs.Elems == 0 {
 				continue
 			}
 			n++
-			key := fmt.Sprintf("%s accepts a line #%d", w.FuncName(fn), n)
+			key := fmt.Sprintf("%s accepts a line #%d", ce.name(w), n)
 			x := appendedElem(gs.Store.Val.(*ssa.Call))
 			if x == nil {
 				r.Unk("R8.1", key, w.InstrPos(gs.Store), "cannot identify the appended clause")
@@ -194,7 +232,7 @@ func ruleR8_1(w *World, r *Report) {
 				"a certificate line is added to the clause set without a successful RUP test of that line: a non-consequence can be accepted and used to 'prove' later lines")
 		}
 		if n == 0 {
-			r.Bad("R8.1", w.FuncName(fn)+" accepts lines", w.Pos(fn.Pos()), "the checker never adds validated lines to the clause set: later lines that depend on earlier ones are rejected")
+			r.Bad("R8.1", ce.name(w)+" accepts lines", w.Pos(fn.Pos()), "the checker never adds validated lines to the clause set: later lines that depend on earlier ones are rejected")
 		}
 	}
 }
@@ -267,11 +305,17 @@ func ruleR8_2(w *World, r *Report) {
 		r.Unk("R8.2", "RUP test", "-", "not found")
 		return
 	}
-	for _, fn := range certCheckers(w, rup) {
+	for _, ce := range certEntries(w, rup) {
+		// the obligation is the entry point's: a shared per-line helper is entered with the restoration deferred and
+		// the tags initialised by each of its callers
+		fn := ce.entry
 		key := w.FuncName(fn) + " restores and re-tags"
 		var bad []string
 		deferred, inited := false, false
 		entry := fn.Blocks[0]
+		if ce.site != nil && (len(fn.Params) == 0 || len(ce.site.Common().Args) == 0 || !isParamOrSpill(ce.site.Common().Args[0], fn.Params[0])) {
+			bad = append(bad, "the lines are checked against a problem other than the one restored")
+		}
 		for _, ins := range entry.Instrs {
 			switch x := ins.(type) {
 			case *ssa.Defer:
@@ -289,14 +333,14 @@ func ruleR8_2(w *World, r *Report) {
 					if isTagInit(c) && len(x.Call.Args) > 0 && isParamOrSpill(x.Call.Args[0], fn.Params[0]) {
 						inited = true
 					}
-					if c == rup && !(deferred && inited) {
+					if (c == rup || (ce.site != nil && c == ce.core)) && !(deferred && inited) {
 						bad = append(bad, "a line is tested before the restoration is deferred / the tags are initialised")
 					}
 				}
 			}
 		}
 		grows := false
-		for _, gs := range growthSites(fn) {
+		for _, gs := range growthSites(ce.core) {
 			if gs.Field == "explain.Problem.Clauses" {
 				grows = true
 			}
@@ -627,13 +671,26 @@ func ruleR8_5(w *World, r *Report) {
 		r.Unk("R8.5", "RUP test", "-", "not found")
 		return
 	}
-	cs := certCheckers(w, rup)
+	ces := certEntries(w, rup)
+	var cs []*ssa.Function
+	coreOf := map[*ssa.Function]*ssa.Function{}
+	for _, ce := range ces {
+		cs = append(cs, ce.entry)
+		if ce.entry != ce.core {
+			coreOf[ce.entry] = ce.core
+		}
+	}
 	if len(cs) < 2 {
 		r.Unk("R8.5", "siblings", "-", fmt.Sprintf("%d certificate checker(s) found, expected the reader-based and the channel-based one", len(cs)))
 		return
 	}
-	sig := func(fn *ssa.Function) map[string]bool {
+	var sig func(fn *ssa.Function) map[string]bool
+	sig = func(fn *ssa.Function) map[string]bool {
 		m := map[string]bool{}
+		if core := coreOf[fn]; core != nil {
+			// the per-line steps are those of the shared helper
+			m = sig(core)
+		}
 		for _, ci := range callsIn(fn) {
 			for _, c := range w.Callees[ci] {
 				kind := "call"
